@@ -143,6 +143,9 @@ func runC01(r *hk.Run) {
 	// (d) connection-level events: the retry must carry the body
 	runEventCells(r, rng.Fork())
 
+	// (h) concurrent requests of one client, each with a unique tag in every part
+	runConcurrentCells(r, rng.Fork())
+
 	// (g) request sequences on one HTTP/1.1 connection behind an Expect: 100-continue exchange
 	runExpectCells(r, rng.Fork())
 
